@@ -557,16 +557,21 @@ func (x *Exec) applyContract(fr *Frame, st *State, sp *FuncSpec, sig *types.Sign
 		x.oblige(st, "pre", calleeLabel(sp)+"."+r.Label, site, r.Src, t)
 	}
 	// call-site assertions of the calling unit (callpre)
+	// the unit's callpre clauses also apply inside functions and closures it executes by body
+	cpSpec := x.Spec
 	if fr != nil && fr.spec != nil && fr.spec.CallPre != nil {
+		cpSpec = fr.spec
+	}
+	if fr != nil && cpSpec != nil && cpSpec.CallPre != nil {
 		// the callee may be named by its function name, T.name, or (*T).name / (T).name
 		var cl []Clause
 		for _, name := range []string{sp.Name, calleeLabel(sp), "(" + sp.Recv + ")." + sp.Name} {
-			if c2, ok := fr.spec.CallPre[name]; ok {
+			if c2, ok := cpSpec.CallPre[name]; ok {
 				cl = c2
 				if x.callpreUsed == nil {
 					x.callpreUsed = map[string]bool{}
 				}
-				x.callpreUsed[fr.spec.Key()+"|"+name] = true
+				x.callpreUsed[cpSpec.Key()+"|"+name] = true
 				break
 			}
 		}
